@@ -914,7 +914,7 @@ func (c *compiler) compileStatementsNeedResult(list []ast.Statement, lastProduci
 			leave()
 		}
 	}()
-	for _, st := range list[lastProducingIdx+1:] {
+	for i, st := range list[lastProducingIdx+1:] {
 		if _, ok := st.(*ast.FunctionDeclaration); ok {
 			continue
 		}
@@ -922,6 +922,8 @@ func (c *compiler) compileStatementsNeedResult(list []ast.Statement, lastProduci
 		if leave == nil {
 			if _, ok := st.(*ast.BranchStatement); ok {
 				leave = c.enterDummyMode()
+				// the rest of the list is compiled in a scratch scope, which needs its own lexical bindings
+				c.compileLexicalDeclarations(list[lastProducingIdx+i+2:], true)
 			}
 		}
 	}
